@@ -476,30 +476,27 @@ package consensus
 //@   requires @decoded-txn-has-resolutions forall j in 0..len(txn.FileContractResolutions) :: !isnil(txn.FileContractResolutions[j].Resolution)
 //@   prop C08 C02 C03 C01 C04 C10
 //@   requires ms.base.Network != nil && msWF(*ms) && len(txn.SiacoinInputs) < NB
-//@   requires forall j in 0..len(ms.sces) :: types.u128(ms.sces[j].SiacoinElement.SiacoinOutput.Value) < EB
 //@   requires cheight(ms.base) >= ms.base.Network.HardforkV2.EphemeralOutputHeight
 //@   requires forall i in 0..len(txn.SiacoinOutputs)+1 :: sumSCO(txn.SiacoinOutputs, i) < types.M128
 //@   requires forall i in 0..len(txn.FileContracts) :: types.u128(txn.FileContracts[i].RenterOutput.Value) + types.u128(txn.FileContracts[i].HostOutput.Value) < types.M128
 //@   requires forall i in 0..len(txn.FileContracts)+1 :: sumSCO(txn.SiacoinOutputs, len(txn.SiacoinOutputs)) + sumV2FC(ms.base, txn.FileContracts, i) < types.M128
 //@   requires forall i in 0..len(txn.FileContractResolutions) :: isa(txn.FileContractResolutions[i].Resolution, V2FileContractRenewal) ==> types.u128(asa(txn.FileContractResolutions[i].Resolution, V2FileContractRenewal).NewContract.RenterOutput.Value) + types.u128(asa(txn.FileContractResolutions[i].Resolution, V2FileContractRenewal).NewContract.HostOutput.Value) < types.M128
 //@   requires forall i in 0..len(txn.FileContractResolutions)+1 :: sumSCO(txn.SiacoinOutputs, len(txn.SiacoinOutputs)) + sumV2FC(ms.base, txn.FileContracts, len(txn.FileContracts)) + sumRenewalCost(ms.base, txn.FileContractResolutions, i) + types.u128(txn.MinerFee) < types.M128
-//@   requires forall i in 0..len(txn.FileContractResolutions)+1 :: sumRollover(txn.FileContractResolutions, i) < EB
 //@   ghost k int
 //@   ghost l int
 //@   let in = txn.SiacoinInputs[k]
 //@   invariant loop#1 @inputs-checked 0 <= k && k < $n ==> !has(ms.spends, txn.SiacoinInputs[k].Parent.ID) && has(spent, txn.SiacoinInputs[k].Parent.ID) && txn.SiacoinInputs[k].Parent.MaturityHeight <= cheight(ms.base) && (txn.SiacoinInputs[k].Parent.StateElement.LeafIndex == types.UnassignedLeafIndex ? ephSC(*ms, txn.SiacoinInputs[k]) : ms.base.Elements.containsUnspentSiacoinElement(txn.SiacoinInputs[k].Parent.Share())) && txn.SiacoinInputs[k].SatisfiedPolicy.Policy.Address() == txn.SiacoinInputs[k].Parent.SiacoinOutput.Address && txn.SiacoinInputs[k].SatisfiedPolicy.Policy.Verify(ms.base.Index.Height, ms.base.medianTimestamp(), ms.base.InputSigHash(txn), txn.SiacoinInputs[k].SatisfiedPolicy.Signatures, txn.SiacoinInputs[k].SatisfiedPolicy.Preimages) == nil
 //@   invariant loop#1 @distinct 0 <= k && k < l && l < $n ==> txn.SiacoinInputs[k].Parent.ID != txn.SiacoinInputs[l].Parent.ID
-//@   invariant loop#1 @bounded forall j in 0..$n :: types.u128(txn.SiacoinInputs[j].Parent.SiacoinOutput.Value) < EB
-//@   invariant loop#2 @in-sum types.u128(inputSum) == sumV2Parents(txn.SiacoinInputs, $n) && types.u128(inputSum) <= $n * EB
-//@   invariant loop#3 @out-sum types.u128(outputSum) == sumSCO(txn.SiacoinOutputs, $n) && types.u128(inputSum) == sumV2Parents(txn.SiacoinInputs, len(txn.SiacoinInputs)) && types.u128(inputSum) <= len(txn.SiacoinInputs) * EB
+//@   invariant loop#2 @in-sum types.u128(inputSum) == sumV2Parents(txn.SiacoinInputs, $n)
+//@   invariant loop#3 @out-sum types.u128(outputSum) == sumSCO(txn.SiacoinOutputs, $n) && types.u128(inputSum) == sumV2Parents(txn.SiacoinInputs, len(txn.SiacoinInputs))
 //@   invariant loop#3 @no-overflow $n < len(txn.SiacoinOutputs) ==> sumSCO(txn.SiacoinOutputs, $n + 1) < types.M128
 //@   invariant loop#3 @nonzero 0 <= k && k < $n ==> types.u128(txn.SiacoinOutputs[k].Value) != 0
-//@   invariant loop#4 @out-sum types.u128(outputSum) == sumSCO(txn.SiacoinOutputs, len(txn.SiacoinOutputs)) + sumV2FC(ms.base, txn.FileContracts, $n) && types.u128(inputSum) == sumV2Parents(txn.SiacoinInputs, len(txn.SiacoinInputs)) && types.u128(inputSum) <= len(txn.SiacoinInputs) * EB
+//@   invariant loop#4 @out-sum types.u128(outputSum) == sumSCO(txn.SiacoinOutputs, len(txn.SiacoinOutputs)) + sumV2FC(ms.base, txn.FileContracts, $n) && types.u128(inputSum) == sumV2Parents(txn.SiacoinInputs, len(txn.SiacoinInputs))
 //@   invariant loop#4 @no-overflow $n < len(txn.FileContracts) ==> sumSCO(txn.SiacoinOutputs, len(txn.SiacoinOutputs)) + sumV2FC(ms.base, txn.FileContracts, $n + 1) < types.M128
 //@   invariant loop#4 @nonzero 0 <= k && k < len(txn.SiacoinOutputs) ==> types.u128(txn.SiacoinOutputs[k].Value) != 0
 //@   invariant loop#5 @out-sum types.u128(outputSum) == sumSCO(txn.SiacoinOutputs, len(txn.SiacoinOutputs)) + sumV2FC(ms.base, txn.FileContracts, len(txn.FileContracts)) + sumRenewalCost(ms.base, txn.FileContractResolutions, $n)
-//@   invariant loop#5 @in-sum types.u128(inputSum) == sumV2Parents(txn.SiacoinInputs, len(txn.SiacoinInputs)) + sumRollover(txn.FileContractResolutions, $n) && sumV2Parents(txn.SiacoinInputs, len(txn.SiacoinInputs)) <= len(txn.SiacoinInputs) * EB
-//@   invariant loop#5 @no-overflow $n < len(txn.FileContractResolutions) ==> sumSCO(txn.SiacoinOutputs, len(txn.SiacoinOutputs)) + sumV2FC(ms.base, txn.FileContracts, len(txn.FileContracts)) + sumRenewalCost(ms.base, txn.FileContractResolutions, $n + 1) + types.u128(txn.MinerFee) < types.M128 && sumRollover(txn.FileContractResolutions, $n + 1) < EB
+//@   invariant loop#5 @in-sum types.u128(inputSum) == sumV2Parents(txn.SiacoinInputs, len(txn.SiacoinInputs)) + sumRollover(txn.FileContractResolutions, $n)
+//@   invariant loop#5 @no-overflow $n < len(txn.FileContractResolutions) ==> sumSCO(txn.SiacoinOutputs, len(txn.SiacoinOutputs)) + sumV2FC(ms.base, txn.FileContracts, len(txn.FileContracts)) + sumRenewalCost(ms.base, txn.FileContractResolutions, $n + 1) + types.u128(txn.MinerFee) < types.M128
 //@   invariant loop#5 @nonzero 0 <= k && k < len(txn.SiacoinOutputs) ==> types.u128(txn.SiacoinOutputs[k].Value) != 0
 //@   ensures @U6-unspent result == nil && 0 <= k && k < len(txn.SiacoinInputs) ==> !has(ms.spends, in.Parent.ID)
 //@   ensures @U7-distinct result == nil && 0 <= k && k < l && l < len(txn.SiacoinInputs) ==> txn.SiacoinInputs[k].Parent.ID != txn.SiacoinInputs[l].Parent.ID
